@@ -173,6 +173,8 @@ class Contract:
             self.params.append((arg.arg, parse_kind(arg.annotation, kenv), d))
         for arg, d in zip(a.kwonlyargs, a.kw_defaults):
             self.params.append((arg.arg, parse_kind(arg.annotation, kenv), d))
+        if a.kwarg is not None:
+            self.kwarg = (a.kwarg.arg, parse_kind(a.kwarg.annotation, kenv))
         if self.node.returns is not None:
             self.ret = parse_kind(self.node.returns, kenv)
         for st in self.node.body:
@@ -261,10 +263,25 @@ class Contract:
             raise Unsupported(f"{self.fid}: too many positional args")
         for n, v in zip(names, pos):
             bound[n] = v
+        extra = {}
         for k, v in kw.items():
+            if k == "**" and self.kwarg is not None:
+                extra["**"] = v
+                continue
             if k not in names or k in bound:
+                if self.kwarg is not None and k not in names:
+                    extra[k] = v
+                    continue
                 raise Unsupported(f"{self.fid}: keyword {k}")
             bound[k] = v
+        if self.kwarg is not None:
+            kn, kk = self.kwarg
+            if not extra:
+                bound[kn] = DictV(kk.key, kk.val, z3.Empty(z3.SeqSort(kk.key.sort())), z3.K(kk.key.sort(), z3.FreshConst(kk.val.sort(), "nokw")))
+            elif list(extra) == ["**"]:
+                bound[kn] = extra["**"]
+            else:
+                raise Unsupported(f"{self.fid}: explicit extra keywords into **{kn}")
         return bound
 
     def apply(self, eng, st: State, pos, kw, node=None):
@@ -277,7 +294,8 @@ class Contract:
                     unify(k, bound[n].kind, subst)
                 except Exception:  # noqa: BLE001
                     pass
-        for n, k, d in self.params:
+        plist = list(self.params) + ([(self.kwarg[0], self.kwarg[1], None)] if self.kwarg is not None else [])
+        for n, k, d in plist:
             k = instantiate(k, subst)
             if n not in bound:
                 if d is None:
@@ -557,6 +575,14 @@ class Registry:
                 kname = st.value.args[0].value
                 for k in st.value.keywords:
                     self._declare_field(kname, k.arg, parse_kind(k.value, kenv))
+            elif isinstance(st, ast.Expr) and isinstance(st.value, ast.Call) and getattr(st.value.func, "id", "") == "declare_class":
+                # declare_class("Survey", "pyxform.survey.Survey"): record kind name -> real class (isinstance tests)
+                cname, dotted = st.value.args[0].value, st.value.args[1].value
+                modn, _, attr = dotted.rpartition(".")
+                try:
+                    self.hooks[("class", cname)] = getattr(extract.import_module(modn), attr)
+                except Exception:  # noqa: BLE001
+                    pass
             elif isinstance(st, ast.FunctionDef) and st.decorator_list:
                 d = st.decorator_list[0]
                 dname = d.func.id if isinstance(d, ast.Call) else getattr(d, "id", "")
@@ -580,6 +606,9 @@ class Registry:
 
     def link(self):
         """Associate contracts with the real function objects (for call-site lookup)."""
+        from . import dom_model
+
+        dom_model.install(self)
         for c in self.contracts.values():
             if "." in c.qualname and "<locals>" not in c.qualname:
                 cls, meth = c.qualname.rsplit(".", 1)
@@ -715,7 +744,19 @@ def _cf_writer_append(eng, st, pos, kw):
     return [(st, w.with_field("buf", StrV(z3.Concat(w.fields["buf"].t, text.t))))]
 
 
+def _cf_some(eng, st, pos, kw):
+    """some(x): the value of an Optional (total projection; unspecified when x is None)."""
+    v = pos[0]
+    if isinstance(v, UnionV):
+        cand = [a for _, a in v.alts if not isinstance(a, NoneV)]
+        if len(cand) == 1:
+            return [(st, cand[0])]
+        raise Unsupported("some() of a union with several non-None alternatives")
+    return [(st, v)]
+
+
 CONTRACT_FUNCS = {
+    "some": FuncV(_cf_some, "some"),
     "Writer_append": FuncV(_cf_writer_append, "Writer_append"),
     "translate_table": FuncV(_cf_translate, "translate_table"),
     "keys": FuncV(_cf_keys, "keys"),
@@ -830,16 +871,17 @@ class Verifier(Engine):
                 raise Unsupported(f"{c.fid}: decorator {d}")
         real = [a.arg for a in fn.args.args] + [a.arg for a in fn.args.kwonlyargs]
         mine = [p[0] for p in c.params]
-        if real != mine or fn.args.vararg or fn.args.kwarg:
-            if not (c.vararg or c.kwarg):
-                raise ContractMismatch(f"{c.fid}: parameters {real} (vararg={bool(fn.args.vararg)}) != contract {mine}")
+        real_kw = fn.args.kwarg.arg if fn.args.kwarg else None
+        mine_kw = c.kwarg[0] if c.kwarg else None
+        if real != mine or fn.args.vararg or real_kw != mine_kw:
+            raise ContractMismatch(f"{c.fid}: parameters {real} (vararg={bool(fn.args.vararg)}, kwarg={real_kw}) != contract {mine} (kwarg={mine_kw})")
         for o in c.loops:
             if o >= len(ex.loops):
                 raise ContractMismatch(f"{c.fid}: contract names loop {o}, function has {len(ex.loops)}")
         # entry state
         env = {}
         inputs = {}
-        for n, k, _ in c.params:
+        for n, k, _ in list(c.params) + ([(c.kwarg[0], c.kwarg[1], None)] if c.kwarg else []):
             v = named(k, f"p_{n}")
             env[n] = v
             from .kinds import KFn
